@@ -354,6 +354,14 @@ def misparsed(n):
 def check(ctx):
     quick = ctx.tier == "quick"
     shapes = [s for s in cgen.stmts(1 if quick else 2, 2) if s[0] not in ("decl", "expr", "empty", "ret") and not misparsed(s)]
+    # compound statements inside a case body, followed by 'break' (a nested switch, braced loops / ifs): the statement after a
+    # closing brace that does NOT close a case block stays in the column of its siblings
+    e2, e5 = ("expr", "b = 2;"), ("expr", "b = 5;")
+    inner = [("switch", [("case 2:", [e5, ("break",)]), ("default:", [("break",)])]), ("if", ("braced", [e5])), ("while", ("braced", [e5])),
+             ("do", ("braced", [e5])), ("for", ("braced", [e5])), ("ifelse", ("braced", [e5]), ("braced", [e2]))]
+    for c in inner:
+        shapes.append(("switch", [("case 1:", [e2, c, ("break",)]), ("default:", [("break",)])]))
+        shapes.append(("switch", [("case 1:", [c, ("break",)]), ("case 3:", [("block", [c, ("break",)])]), ("default:", [("break",)])]))
     if quick:
         ics, iwts, tss = ("2", "3", "4", "8"), ("0", "2"), ("4", "8")
     else:
